@@ -33,13 +33,17 @@ impl<'de, const LENGTH: usize> Deserialize<'de> for StackByteArray<LENGTH> {
                 let mut arr = StackByteArray::<LENGTH>::new();
                 let mut idx: usize = 0;
 
+                // exactly LENGTH elements: neither pad a short sequence nor
+                // truncate a long one
                 while let Some(elem) = seq.next_element()? {
-                    if idx < LENGTH {
-                        arr[idx] = elem;
-                        idx += 1;
-                    } else {
-                        break;
+                    if idx >= LENGTH {
+                        return Err(Error::invalid_length(idx + 1, &stringify!(LENGTH)));
                     }
+                    arr[idx] = elem;
+                    idx += 1;
+                }
+                if idx != LENGTH {
+                    return Err(Error::invalid_length(idx, &stringify!(LENGTH)));
                 }
 
                 Ok(arr)
